@@ -453,8 +453,22 @@ func (c *c13) exec(line string) (obs string, suffix string) {
 		}
 		if ierr != nil {
 			cls = "import-failed"
+			// a trace with fewer than ten plans of its own may depend on the plans earlier traces left in the
+			// shared application: its op lines alone do not replay on a fresh one — separate signature, so
+			// that the self-contained directed trace (twelve plans) keeps the replay of the main signature
+			c.save()
+			own := 0
+			for _, sl := range c.slots {
+				if sl.planID != "" {
+					own++
+				}
+			}
+			sig := "C13/restart/exported-genesis-rejected/" + c18ImportClass(ierr)
+			if own < 10 {
+				sig += "/with-plans-of-earlier-traces"
+			}
 			post = append(post, func() {
-				c.viol("C13/restart/exported-genesis-rejected/"+c18ImportClass(ierr), trunc200("InitChainer failed on the exported state: "+ierr.Error()))
+				c.viol(sig, trunc200("InitChainer failed on the exported state: "+ierr.Error()))
 			})
 			break
 		}
